@@ -350,15 +350,16 @@ type memCase struct {
 
 func genMem(c *core.Ctx, idx int) *memCase {
 	rng := c.Rand("mem", idx)
-	v := variant(idx % 4)
-	size := bufSizes[(idx/4)%len(bufSizes)]
+	q := idx + idx/16 + idx/80 // diagonalised so that every shard sees every configuration
+	v := variant(q % 4)
+	size := bufSizes[(q/4)%len(bufSizes)]
 	r, w := v.sizes(size)
 	if v == vBoth && rng.Intn(3) == 0 { // unequal read and write buffers
 		r = bufSizes[rng.Intn(len(bufSizes))]
 	}
 	eff := effective(size)
 	mc := &memCase{Variant: variantNames[v], ReadSize: r, WriteSize: w, eff: eff,
-		Frag: fragPlans[(idx/16)%len(fragPlans)], EOFWithData: rng.Intn(3) == 0}
+		Frag: fragPlans[(q/16)%len(fragPlans)], EOFWithData: rng.Intn(3) == 0}
 	mc.ops = genOps(rng, eff, size, true)
 	mc.stream = randStream(rng, totalPayload(mc.ops))
 	switch rng.Intn(8) {
